@@ -250,11 +250,12 @@ reg("C19",
              83: "-dns-ttl through the command: -1 still caches, or 0 / a duration looks the name up for every connection",
              43: "-max-body value differs from the documented meaning", 53: "-dns-ttl value differs from the documented meaning",
              62: "well-formed -connect-to rejected", 63: "-connect-to mapping differs from the documented one", 73: "-resolvers addresses not normalised as documented"},
+    diffs={10: "rateFlag.Set accepts a value the model rejects", 11: "rateFlag.Set rejects a value the model accepts", 12: "stored frequency differs from the model's", 13: "stored period differs from the model's", 14: "unlimited-rate guard differs", 15: "the printed form of the rate differs from the model's (Itoa, '/', the Duration.String model of Base/DurString.v)"},
     assumptions=["time.ParseDuration, strconv.Atoi, datasize.UnmarshalText, net.SplitHostPort, net.ParseIP are library code: reference models in Base/Duration.v, Base/Str.v, Model/Flags.v, sampled on every run",
-                 "rate_print_parse is proved relative to the two library laws parse(Duration.String d) = d and Atoi(Itoa n) = n (hypotheses of the theorem, sampled through the String()->Set round trip)",
+                 "rate_print_parse_closed has no hypothesis left: Atoi(Itoa n) = n (DecimalProofs) and ParseDuration(Duration.String d) = d for 0 < d < 2^63 (duration_string_parses) are theorems about the reference models; the Duration.String model (Base/DurString.v, library code) is compared with the printed form of every accepted rate on each run (diff 15)",
                  "IPv6 resolver addresses are outside the model (don't-care)"],
     trusted_base=["hook: /repo/verif_driver.go and internal/resolver/verif_export.go (build tag verif)"],
-    level_text="rate_meaning, rate_default_unit, rate_bare_unit(+values), rate_zero_unlimited, rate_infinity_unlimited, rate_rejects_malformed(+_duration), headers_set_wellformed, headers_accumulate, connect_to_map, connect_to_rejects_wrong_arity, resolver_addrs_default_port are proved in Coq for all strings about byte-level Gallina models of the flag parsers; the models are compared with flag.Value.Set of the real types (through the verif driver of package main) on every run and each stored value is judged against the generator's intent by a checker defined in Coq.",
+    level_text="duration_string_parses, rate_print_parse_closed, rate_meaning, rate_default_unit, rate_bare_unit(+values), rate_zero_unlimited, rate_infinity_unlimited, rate_rejects_malformed(+_duration), headers_set_wellformed, headers_accumulate, connect_to_map, connect_to_rejects_wrong_arity, resolver_addrs_default_port are proved in Coq for all strings about byte-level Gallina models of the flag parsers; the models are compared with flag.Value.Set of the real types (through the verif driver of package main) on every run and each stored value is judged against the generator's intent by a checker defined in Coq.",
     technique="Coq proofs over byte-string parser models; differential correspondence through the package-main driver",
     timeout={"quick": 600, "thorough": 3000})
 
@@ -318,7 +319,8 @@ reg("C02", runner="sync", needs_cli=True, rule=_ATTACK_RULE, diffs=_ATTACK_DIFF,
              250: "the attack command, interrupted once, did not end by itself with status 0",
              251: "the attack command, interrupted once, did not write exactly one result per started hit (sequence numbers 0..n-1, every request the server saw)",
              252: "the attack command, interrupted while requests were still in flight, ended without waiting for them"},
-    assumptions=_ATTACK_ASSUME + ["four runs of the real `vegeta attack` (20..120 requests/s against a local server answering after 20..170 ms) are interrupted once with SIGINT after 0.3..0.8 s: the command's result pump and first-signal path (attack.go) are observed end to end; three more runs have 1..3 requests that never complete: the command must still be running 0.8..1.5 s after the interrupt (a second interrupt then ends the run; what the command does on it is recorded, not judged - the second-signal path is not a subject of the property)"],
+    assumptions=_ATTACK_ASSUME + ["four runs of the real `vegeta attack` (20..120 requests/s against a local server answering after 20..170 ms) are interrupted once with SIGINT after 0.3..0.8 s: the command's result pump and first-signal path (attack.go) are observed end to end; three more runs have 1..3 requests that never complete: the command must still be running 0.8..1.5 s after the interrupt (a second interrupt then ends the run; what the command does on it is recorded, not judged - the second-signal path is not a subject of the property)",
+                                  "outside the bubble, on the real scheduler: 4 x 750 rounds (thorough 4 x 10^4) of 2*GOMAXPROCS goroutines calling Stop on one Attacker at the same instant (initiators counted per round), and 6 real attacks of an Attacker built with DNSCaching(ttl > 0) that end by duration / pacer stop / targeter failure, after which no goroutine may still execute code of the library (stack dump, first frame's file)"],
     trusted_base=_ATTACK_TB,
     level_text="seqs_exact, close_after_all, close_at_most_once, ends_cleanly_progress/terminates/final, stop_exactly_one(+_when_ended), stop_once_flag_exactly_one are proved in Coq as invariants over every label sequence of an executable LTS of Attack/attack/hit/Stop (all interleavings, any length, any configuration with max-workers >= 1); the LTS is tied to the code by trace acceptance: scripted real attacks under synctest must be runs of the model (verified-by-construction search over model states), and the property's clauses are also decided directly on every observed trace.",
     technique="Coq inductive invariants over an LTS (all schedules) + trace acceptance of real runs under synctest",
@@ -352,7 +354,8 @@ reg("C05", gen=gen_skel, obligation_files=["Props/C05.v", "Gen/Skel.v"],
          "entry instant and duration (optionally sleeping up to 50us); every case is non-trivial",
     clauses={1: "sorted by sequence number the timestamps decrease somewhere (or sequence numbers are not 0..n-1)", 2: "a timestamp lies before the attack's start",
              3: "a timestamp lies after the instant the request reached the transport", 4: "a latency is negative or smaller than the time the transport took",
-             5: "timestamp + latency lies before the transport returned"},
+             5: "timestamp + latency lies before the transport returned",
+             6: "the plot (which re-orders results by sequence number and requires time not to decrease) refused results of the attack"},
     assumptions=["the stress is probabilistic: it samples the schedules the Go scheduler produces on this machine; the structural guarantee is the T2 obligation",
                  "reduction from 'critical section' (same_section_sound) to 'atomic step' (hit_ordered) is argued, not mechanised"],
     trusted_base=_T2_TB,
